@@ -124,8 +124,38 @@ class Ref:
             d = d[p].subs
         del d[parts[-1]]
 
+    # -- construction (class docstring of Card: template / model_diagram)
+    DEFAULT_HYPER = "Model description/Training Procedure/Hyperparameters"      # as documented, not read from the signatures
+    DEFAULT_PLOT = "Model description/Training Procedure/Model Plot"
+
+    def init(self, tspec, dspec, params, html):
+        """`template`: "skops" (the only predefined name) prefills the documented default sections, a dict prefills its own
+        sections (keys = sections, values = contents), None prefills nothing; any other string is not a template.
+        The skops template also gets the hyperparameter table and -- for model_diagram True or "auto" -- the diagram in
+        its default section; a string other than "auto" names the section of the diagram for every template;
+        False: no diagram; "auto" without the skops template: no diagram.  True without the skops template: the code puts
+        the diagram at the default path (its comment announces an error that does not happen; the docstring is silent)."""
+        from skops.card._templates import SKOPS_TEMPLATE
+        if isinstance(tspec, str) and tspec != "skops":
+            raise ValueError(tspec)
+        skops = tspec == "skops"
+        if skops:
+            self.apply(["add", False, [[k, v] for k, v in SKOPS_TEMPLATE.items()]])
+            self.apply(["hyper", self.DEFAULT_HYPER, None, params])
+        elif tspec is not None:
+            items = tspec["map"]
+            if any(k in ("self", "folded") for k, _ in items):
+                raise TypeError("a section named like a parameter of Card.add cannot be passed as a keyword")
+            self.apply(["add", False, items])
+        if isinstance(dspec, str) and dspec != "auto":
+            self.apply(["modelplot", dspec, None, html])
+        elif dspec is True or (skops and dspec == "auto"):
+            self.apply(["modelplot", self.DEFAULT_PLOT, None, html])
+
     def apply(self, op):
         kind = op[0]
+        if kind == "init":
+            return self.init(op[1], op[2], op[3], op[4])
         if kind == "add":
             for key, val in op[2]:
                 self.put(spec_split(key), Node(spec_split(key)[-1], val, folded=op[1]))
@@ -237,15 +267,20 @@ def attempt(f):
         return "other:" + type(e).__name__, None
 
 
-def check_sequence(ops, new_card, apply_op, build=None, model_op=None):
+def check_sequence(ops, construct, apply_op, build=None, model_op=None):
     """Replays ops on a real card and on the reference; returns None or the first step where they differ.
+    ops[0] is the init pseudo-operation (impl_card.norm_seq): construct(ops[0]) -> (outcome class, card or None).
     model_op must come from the module whose apply_op is used (it reads the HTML text recorded by that module's wrapper)."""
     from impl_card import path_string
     if model_op is None:
         from impl_card import model_op
-    card, ref = new_card(), Ref()
+    card, ref = None, Ref()
     for i, op in enumerate(ops):
-        got_cls, got = apply_op(card, op)
+        if op[0] == "init":
+            got_cls, card = construct(op)
+            got = None
+        else:
+            got_cls, got = apply_op(card, op)
         mo = model_op(op)            # after the call: a real estimator's HTML is what the implementation received
         want_cls, want = attempt(lambda: ref.apply(mo))
         if got_cls == "sel":
@@ -256,6 +291,8 @@ def check_sequence(ops, new_card, apply_op, build=None, model_op=None):
 
         if want_cls != got_cls:
             return fail("outcome", f"implementation {got_cls}, property requires {want_cls}")
+        if card is None:
+            return None              # the constructor raised as required: there is no card
         if want is not None and got is not None and want.shallow() != impl_shallow(got):
             return fail("select", f"select returned {impl_shallow(got)!r}, last written there: {want.shallow()!r}")
         a, b = list(ref.dump()), list(impl_dump(card._data))
